@@ -1,7 +1,7 @@
 """C04 — Every request gets exactly one outcome."""
 import re
 
-from analysis import (canon, const_int_of, async_param_names, option_edges, membership_test, cmp_intervals, peel_await, Prov, Guards, fmt, fmt_short, walk, roots, short, comparison, find_calls, callee_matches,
+from analysis import (canon, const_int_of, async_param_names, linear, option_edges, membership_test, cmp_intervals, peel_await, Prov, Guards, fmt, fmt_short, walk, roots, short, comparison, find_calls, callee_matches,
                       must_pass, path_to, describe_path, normalised_cmp, const_int_of, contains_call)
 from facts import AnchorError, strip_closure
 from harness import Rule, guarded
@@ -557,6 +557,28 @@ def r4(ctx):
     r = b.reachable(0, removed_edges=multi)
     rule.check(bool(multi) and not any(i in r for i in inserts), "re-insertions only for total > 1", "response|reinsert-guard",
                "handle_response re-inserts a request for a response that is not a multi-packet NODES response", loc=b.loc(b.line))
+    # the count of packets still expected lives in the request that is re-inserted: every re-insert follows a write through
+    # remaining_responses_mut() of that request (`= Some(total - 1)` for the first packet, `-= 1` afterwards)
+    cw = []
+    for blk in b.blocks:
+        if blk.cleanup or blk.idx not in b.live_blocks():
+            continue
+        for st_ in blk.stmts:
+            if st_.k == "a" and st_.lhs.proj and st_.lhs.proj[0] == "*" and \
+                    any(x[0] == "call" and short(x[1]).endswith("RequestCall::remaining_responses_mut") for x in walk(prov.local(st_.lhs.local))):
+                v = prov.rvalue(st_.rv, blk.idx)
+                lin = linear(v, lambda e: "cur" if (e[0] == "field" and e[1][0] != "bin" and any(x[0] == "call" and short(x[1]).endswith("RequestCall::remaining_responses_mut") for x in walk(e))) else None)
+                first = [x for x in roots(v) if x[0] == "agg" and x[1].endswith("Option::Some")]
+                if lin == ({"cur": 1}, -1):
+                    cw.append((blk.idx, "dec"))
+                elif first and len(first) == len(roots(v)):
+                    inner = linear(dict(first[0][2])["0"], lambda e: "total" if fmt_short(e).endswith(".total") or fmt_short(e) == "total" else None)
+                    if inner == ({"total": 1}, -1):
+                        cw.append((blk.idx, "init"))
+    rule.check(bool(cw) and {k for _, k in cw} == {"dec", "init"} and must_pass(b, inserts, via_blocks=[x for x, _ in cw]),
+               "every re-insert follows a stored update of the packets still expected (= Some(total - 1) first, -= 1 afterwards)", "response|count-not-stored",
+               "handle_response re-inserts a multi-packet NODES request without having written the updated count of remaining packets into it (found: %s): the request never "
+               "completes in the handler, is reported as timed out after its responses were delivered, and is re-sent" % sorted({k for _, k in cw}), loc=b.loc(b.line))
     for i in inserts:
         r = b.reachable(i)
         rule.check(not any(x in r for x in rel), "a re-inserted request does not also release its exemption", "response|reinsert-and-release",
